@@ -247,6 +247,10 @@ def dispatch (op : String) (args : List String) : Option String :=
       pure (if src.failed.isSome then "src-failed" else if !renameOk o src then "rename-not-ok"
             else if refRenameCollides x then "ref-collision" else "ok")
   | "compat", [n, r] => do pure (encBool (compat (← decBytes n) (← decBytes r)))
+  | "striplookup", [content, queries] => do
+      match parseStripIds (← decBytes content) with
+      | none => pure "err"
+      | some ids => pure (String.ofList ((← decList queries).map fun q => if stripContains ids q then '1' else '0'))
   -- sanity.rs
   | "freshly", [r, p, l] => do pure (encBool (freshlyPacked (← r.toNat?) (← p.toNat?) (← l.toNat?)))
   | "unpushed", [bare, locals, origins] => do
